@@ -12,7 +12,9 @@
 (* template-data at a level is a partial map key -> kind of value          *)
 (* ("str", "bool", "int", "obj"; "strT" / "str1" are strings that PRINT     *)
 (* like the boolean true / the integer 1 -- values that differ from a      *)
-(* conforming one in JSON type only; "null" is the JSON null: an ordinary  *)
+(* conforming one in JSON type only; "strOff" a string outside an enum;    *)
+(* "obj"/"objM"/"objNM" nested maps, "arr"/"arrBad" lists; "null" is the   *)
+(* JSON null: an ordinary  *)
 (* value for the key-wise merge -- the most specific level that mentions   *)
 (* the key wins, also with null (observed on the unchanged tree: null      *)
 (* never "unsets") -- and of a type no typed property accepts).  A schema  *)
@@ -47,12 +49,20 @@ Builtin(t) == t \in DOMAIN BuiltinSchemas
 (* Effective values: the most specific level that sets a thing wins (C08) *)
 
 \* data: level -> (key -> kind)
+\* nested-map values: "obj" = {n: 1}, "objM" = {m: "x"}, "objNM" = {n: 1, m: "x"} (what merging the two gives)
+ObjKinds == {"obj", "objM", "objNM"}
+ObjUnion(a, b) == IF a = b THEN a ELSE "objNM"
+
 RECURSIVE EffData(_, _)
 EffData(data, chain) ==
   IF Len(chain) = 0 THEN << >>
   ELSE LET rest == EffData(data, Tail(chain))
            own  == data[chain[1]]
-       IN [k \in DOMAIN own \cup DOMAIN rest |-> IF k \in DOMAIN own THEN own[k] ELSE rest[k]]
+       IN [k \in DOMAIN own \cup DOMAIN rest |->
+             IF k \notin DOMAIN own THEN rest[k]
+             ELSE IF k \in DOMAIN rest /\ own[k] \in ObjKinds /\ rest[k] \in ObjKinds
+                  THEN ObjUnion(own[k], rest[k])          \* nested maps are merged (config.go mergeStringMaps)
+             ELSE own[k]]
 
 \* setting: level -> value or "unset"
 RECURSIVE EffSetting(_, _, _)
@@ -64,17 +74,20 @@ FileData(c)    == EffData(c.data, ChainOfFile)
 MockData(c, m) == EffData(c.data, ChainOfMock(m))
 
 Require(c, f)   == EffSetting(c.req, ChainOfMock(FirstMock(f)), "true") = "true"       \* default: true
-SchemaLoc(c, f) == EffSetting(c.tsch, ChainOfMock(FirstMock(f)), "default")            \* default: <template>.schema.json
+\* default: <template>.schema.json; "perif": a template-schema that mentions {{.InterfaceName}} -- one location per interface
+SchemaLoc(c, f) == LET s == EffSetting(c.tsch, ChainOfMock(FirstMock(f)), "default") IN
+                   IF s = "perif" THEN (IF f = "F1" THEN "pA1" ELSE "pA2") ELSE s
 
 -----------------------------------------------------------------------------
 (* Contract *)
 
-\* JSON type of a kind of value: how a value prints is irrelevant to the schema
-TypeOf(v) == IF v \in {"str", "strT", "str1"} THEN "str" ELSE v          \* TypeOf("null") = "null": fits no typed key
-
-Valid(m, S) == /\ S.req \subseteq DOMAIN m
+\* A schema says, per key it knows, which kinds of value it accepts (types: key -> set of kinds): that covers
+\* "type", "enum", nested "properties"/"required"/"additionalProperties", "items", "$ref"; how a value prints is
+\* irrelevant.  none = the schema `false` (nothing is valid); the schema `true` is open with no keys.
+Valid(m, S) == /\ ~S.none
+               /\ S.req \subseteq DOMAIN m
                /\ ~S.open => DOMAIN m \subseteq DOMAIN S.types
-               /\ \A k \in DOMAIN m \cap DOMAIN S.types : TypeOf(m[k]) = S.types[k]
+               /\ \A k \in DOMAIN m \cap DOMAIN S.types : m[k] \in S.types[k]
 
 IsShape(st) == st \in DOMAIN Shapes
 
